@@ -25,6 +25,7 @@ type Txn struct {
 	pess   bool
 	ended  bool
 	alevel string
+	locked map[int]bool // keys this (pessimistic) transaction holds a lock on
 }
 
 type Run struct {
@@ -189,8 +190,18 @@ func (r *Run) do(o M) M {
 			ret["class"], ret["pairs"] = errClass(err2), ps
 		}
 	case "set":
+		if useUni && tx.pess && !tx.locked[geti(o, "k")] {
+			// unistore tells a pessimistic transaction's prewrite to resolve any lock it meets unconditionally (lock ttl 0): a write
+			// to a key the transaction never locked would remove another transaction's live lock. Writers lock first there.
+			ret["class"] = "skipped"
+			break
+		}
 		ret["class"] = errClass(tx.t.Set(keyOf(geti(o, "k")), valOf(geti(o, "v"))))
 	case "insert":
+		if useUni && tx.pess && !tx.locked[geti(o, "k")] {
+			ret["class"] = "skipped"
+			break
+		}
 		fl := []kv.FlagsOp{kv.SetPresumeKeyNotExists}
 		if getb(o, "newly") { // what TiDB does for a freshly inserted row
 			fl = append(fl, kv.SetNewlyInserted)
@@ -207,6 +218,10 @@ func (r *Run) do(o M) M {
 		tx.t.GetMemBuffer().UpdateFlags(keyOf(geti(o, "k")), fop)
 		ret["class"] = "nil"
 	case "delete":
+		if useUni && tx.pess && !tx.locked[geti(o, "k")] {
+			ret["class"] = "skipped"
+			break
+		}
 		ret["class"] = errClass(tx.t.Delete(keyOf(geti(o, "k"))))
 	case "lock":
 		fts, err := tx.cl.store.CurrentTimestamp("global")
@@ -226,6 +241,14 @@ func (r *Run) do(o M) M {
 		}
 		err = tx.t.LockKeys(ctx, lctx, keysOf(getis(o, "ks"))...)
 		ret["class"], ret["fts"] = errClass(err), cts(fts)
+		if err == nil {
+			if tx.locked == nil {
+				tx.locked = map[int]bool{}
+			}
+			for _, k := range getis(o, "ks") {
+				tx.locked[k] = true
+			}
+		}
 		vals := []M{}
 		if err == nil && getb(o, "retvals") {
 			for _, k := range getis(o, "ks") {
